@@ -52,6 +52,8 @@ func main() {
 			usage()
 		}
 		replay(os.Args[2])
+	case "selftest-determinism":
+		selftestDeterminism()
 	case "gen-test":
 		genTest()
 	default:
